@@ -17,7 +17,7 @@
 //!
 //! replay: behaviours emitted by TLC (MCCobCache).   record: seeded random longer behaviours,
 //! logged as ndjson (steps + the real answers in model terms) for TraceCobCache.tla.
-use std::collections::{BTreeMap, BTreeSet, HashSet};
+use std::collections::{BTreeMap, BTreeSet};
 use std::ops::ControlFlow;
 use std::path::Path;
 
@@ -35,7 +35,6 @@ use radicle::node::device::Device;
 use radicle::storage::git::Repository;
 use radicle::storage::{ReadStorage as _, RefUpdate};
 use radicle::test::setup::{Node, NodeRepo};
-use radicle::test::storage::Namespaces;
 
 /// Identifier tables: model id <-> real id, and where comments / reviews live.
 #[derive(Default, Clone)]
@@ -67,7 +66,6 @@ struct World {
     repo: NodeRepo,
     peer_repo: Repository,
     db: StoreWriter,
-    commits: Vec<(Oid, Oid)>,
     nfiles: usize,
     /// I changed my storage since the peer last fetched from me
     peer_stale: std::cell::Cell<bool>,
@@ -93,22 +91,25 @@ impl World {
         peer.clone(repo.id, &me);
         let peer_repo = peer.storage.repository(repo.id).expect("peer repository");
         let db = StoreWriter::memory().expect("cache db").with_migrations(migrate::ignore).expect("migrations");
-        World { me, peer, repo, peer_repo, db, commits: vec![], nfiles: 0, peer_stale: std::cell::Cell::new(true) }
+        World { me, peer, repo, peer_repo, db, nfiles: 0, peer_stale: std::cell::Cell::new(true) }
     }
 
-    fn new_commit(&mut self) -> (Oid, Oid) {
+    /// A new commit on top of the master branch, written straight into the storage of the actor
+    /// (a patch revision needs a base and a head commit; the change commit of the patch keeps them
+    /// reachable, so they travel with the patch).
+    fn new_commit(&mut self, by_me: bool) -> (Oid, Oid) {
         self.nfiles += 1;
-        let b = self
-            .repo
-            .checkout()
-            .branch_with([(format!("file{}", self.nfiles), format!("content {}", self.nfiles).into_bytes())]);
-        // the push does not re-sign my references; a fetch from me would not validate
-        {
-            use radicle::storage::SignRepository as _;
-            self.repo.sign_refs(&self.me.signer).expect("sign refs");
-        }
-        self.commits.push((b.base, b.oid));
-        (b.base, b.oid)
+        let raw = if by_me { &self.repo.backend } else { &self.peer_repo.backend };
+        let master = format!("refs/namespaces/{}/refs/heads/master", self.me.signer.public_key());
+        let base = raw.refname_to_id(&master).expect("master");
+        let parent = raw.find_commit(base).expect("commit");
+        let blob = raw.blob(format!("content {} {:?}", self.nfiles, self.me.tmp.path()).as_bytes()).expect("blob");
+        let mut tb = raw.treebuilder(Some(&parent.tree().expect("tree"))).expect("treebuilder");
+        tb.insert(format!("file{}", self.nfiles), blob, 0o100644).expect("insert");
+        let tree = raw.find_tree(tb.write().expect("tree")).expect("tree");
+        let sig = git2::Signature::new("verif", "verif@localhost", &git2::Time::new(1_600_000_000 + self.nfiles as i64, 0)).unwrap();
+        let oid = raw.commit(None, &sig, &sig, "revision", &tree, &[&parent]).expect("commit");
+        (base.into(), oid.into())
     }
 
     /// Forget every collaborative object (references in both storages, cache database) so that the
@@ -131,8 +132,34 @@ impl World {
         // both sides see each other's (now empty) signed references again
         self.peer_stale.set(true);
         self.sync_peer().expect("sync");
-        radicle::test::fetch(&*self.repo, self.peer.signer.public_key(), Namespaces::All).expect("sync");
+        Self::copy_namespace(&self.repo, &self.peer_repo, self.peer.signer.public_key()).expect("sync");
         self.db = StoreWriter::memory().expect("cache db").with_migrations(migrate::ignore).expect("migrations");
+    }
+
+    /// What a fetch does to the references of one namespace: copy them (and the objects) from the
+    /// other storage, pruning the ones that are gone, and report the changes. (`radicle::test::fetch`
+    /// does the same through the mock transport, followed by head computations that take ~1 s.)
+    fn copy_namespace(dst: &Repository, src: &Repository, ns: &radicle::crypto::PublicKey) -> Result<Vec<RefUpdate>, String> {
+        let mut updates = Vec::new();
+        {
+            let mut callbacks = git2::RemoteCallbacks::new();
+            callbacks.update_tips(|name, old, new| {
+                if let Ok(name) = radicle::git::RefString::try_from(name) {
+                    if name.to_namespaced().is_some() {
+                        updates.push(RefUpdate::from(name, old, new));
+                    }
+                }
+                true
+            });
+            let mut opts = git2::FetchOptions::default();
+            opts.prune(git2::FetchPrune::On);
+            opts.remote_callbacks(callbacks);
+            let url = format!("file://{}", src.backend.path().display());
+            let mut remote = dst.backend.remote_anonymous(&url).map_err(|e| format!("remote: {e}"))?;
+            let refspec = format!("+refs/namespaces/{ns}/refs/*:refs/namespaces/{ns}/refs/*");
+            remote.fetch(&[refspec], Some(&mut opts), None).map_err(|e| format!("fetch: {e}"))?;
+        }
+        Ok(updates)
     }
 
     fn sync_peer(&self) -> Result<(), String> {
@@ -140,20 +167,13 @@ impl World {
             return Ok(());
         }
         self.peer_stale.set(false);
-        radicle::test::fetch(&self.peer_repo, self.me.signer.public_key(), Namespaces::All)
-            .map(|_| ())
-            .map_err(|e| format!("peer fetch: {e}"))
+        Self::copy_namespace(&self.peer_repo, &self.repo, self.me.signer.public_key()).map(|_| ())
     }
 
     /// Fetch the peer's namespace into my storage (pruning) and hand the reference updates to the
     /// worker's `cache_cobs`.
     fn fetch_from_peer(&mut self) -> Result<(), String> {
-        let updates: Vec<RefUpdate> = radicle::test::fetch(
-            &*self.repo,
-            self.peer.signer.public_key(),
-            Namespaces::Followed(HashSet::from([*self.peer.signer.public_key()])),
-        )
-        .map_err(|e| format!("fetch: {e}"))?;
+        let updates = Self::copy_namespace(&self.repo, &self.peer_repo, self.peer.signer.public_key())?;
         let rid = self.repo.id;
         let db = &mut self.db;
         let repo: &Repository = &self.repo;
@@ -207,11 +227,9 @@ where
             "draft" => p.lifecycle(Lifecycle::Draft, signer),
             "archived" => p.lifecycle(Lifecycle::Archived, signer),
             "merged" => {
-                let (rev, commit) = {
-                    let (rev, r) = p.latest();
-                    (rev, r.head())
-                };
-                p.merge(rev, commit, signer).map(|m| m.entry)
+                // the merge commit has to be on the merging delegate's default branch: use its head
+                let rev = p.latest().0;
+                p.merge(rev, base_oid.0, signer).map(|m| m.entry)
             }
             s => fatal(&format!("unknown patch status {s}")),
         },
@@ -254,7 +272,7 @@ fn step(w: &mut World, ids: &mut Ids, s: &Value) -> Result<(), String> {
             let draft = o["st"] == "draft";
             let entry: Oid = if a == "create" {
                 if is_patch {
-                    let (base, oid) = w.new_commit();
+                    let (base, oid) = w.new_commit(true);
                     let mut patches = patch::Cache::open(patch::Patches::open(&*w.repo).map_err(|e| e.to_string())?, w.db.clone());
                     let p = if draft {
                         patches.draft(format!("patch {id}"), "d", MergeTarget::Delegates, base, oid, &[], &w.me.signer)
@@ -271,11 +289,8 @@ fn step(w: &mut World, ids: &mut Ids, s: &Value) -> Result<(), String> {
                     **i.id()
                 }
             } else {
-                if w.commits.is_empty() {
-                    w.new_commit();
-                }
-                let (base, oid) = w.commits[0];
                 w.sync_peer()?;
+                let (base, oid) = w.new_commit(false);
                 if is_patch {
                     let mut patches = patch::Cache::no_cache(&w.peer_repo).map_err(|e| e.to_string())?;
                     let p = if draft {
@@ -307,11 +322,11 @@ fn step(w: &mut World, ids: &mut Ids, s: &Value) -> Result<(), String> {
                 w.sync_peer()?;
             }
             let base_oid = if o["k"] == "revision" {
-                if by_me {
-                    w.new_commit()
-                } else {
-                    w.commits[0]
-                }
+                w.new_commit(by_me)
+            } else if o["st"] == "merged" {
+                let master = format!("refs/namespaces/{}/refs/heads/master", w.me.signer.public_key());
+                let head: Oid = w.repo.backend.refname_to_id(&master).map_err(|e| e.to_string())?.into();
+                (head, head)
             } else {
                 (Oid::from(git2::Oid::zero()), Oid::from(git2::Oid::zero()))
             };
@@ -569,7 +584,7 @@ fn project_object(w: &World, ids: &Ids, kind: &str, v: &Value) -> Value {
     let mut revs = serde_json::Map::new();
     let mut comments = serde_json::Map::new();
     let mut reviews = serde_json::Map::new();
-    let mut thread = |t: &Value, rev: i64, comments: &mut serde_json::Map<String, Value>| {
+    let thread = |t: &Value, rev: i64, comments: &mut serde_json::Map<String, Value>| {
         if let Some(cs) = t["comments"].as_object() {
             for (cid, c) in cs {
                 comments.insert(ids.m(cid).to_string(), json!({"rev": rev, "state": if c.is_null() { "redacted" } else { "live" }}));
@@ -725,20 +740,29 @@ fn shape(steps: &[Value]) -> String {
 
 /// Run one behaviour; returns (failure record if any, number of query comparisons).
 fn run_behaviour(w: &mut World, log: &[Value], with_model: bool) -> (Option<Value>, usize) {
+    let tr = std::time::Instant::now();
     w.reset();
+    if std::env::var("VERIF_DEBUG").is_ok() {
+        eprintln!("reset {:?}", tr.elapsed());
+    }
     let mut ids = Ids::default();
     let mut compared = 0usize;
     let mut done: Vec<Value> = Vec::new();
     for e in log {
         let s = &e["step"];
         done.push(s.clone());
+        let t0 = std::time::Instant::now();
         if let Err(msg) = step(w, &mut ids, s) {
             return (Some(json!({"ok": false, "kind": "step", "shape": shape(&done), "detail": msg})), compared);
         }
+        let t1 = std::time::Instant::now();
         let (c, d) = match all_answers(w, &ids) {
             Ok(x) => x,
             Err(m) => return (Some(json!({"ok": false, "kind": "step", "shape": shape(&done), "detail": m})), compared),
         };
+        if std::env::var("VERIF_DEBUG").is_ok() {
+            eprintln!("{}: step {:?} queries {:?}", describe(s), t1 - t0, t1.elapsed());
+        }
         compared += 2 * ids.real.len() + 12;
         let (cn, dn) = (normalise(&c), normalise(&d));
         if cn != dn {
